@@ -571,6 +571,9 @@ class Concat(BuiltinFunctionT):
             dst_data = add_ofst(bytes_data_ptr(dst), ofst)
 
             if isinstance(arg.typ, _BytestringT):
+                if not arg.is_pointer:
+                    # e.g. `empty(Bytes[N])` is a value, not a pointer
+                    arg = ensure_in_memory(arg, context)
                 with arg.cache_when_complex("arg") as (b1, arg):
                     argdata = bytes_data_ptr(arg)
 
